@@ -295,7 +295,9 @@ Definition judge_op (s : sst) (a : nat) (o : op) (r : out) (pre post : obs) : ve
       end
     | ORehash n | LRehash n =>
       if is_exn r EMaxHashpower then
-        if maxhp_allowed pre post (Some n) then ok (inval s) else blame (inval s) C10_limit
+        (* the request itself may exceed the maximum, or the rebuild may need more than the maximum
+           allows for the present contents: both need a configured maximum *)
+        if negb (o_mhp pre =? NO_MAXIMUM_HASHPOWER) then ok (inval s) else blame (inval s) C10_limit
       else if is_exn r ELoadFactorTooLow then blame (inval s) C10_limit  (* explicit requests never throw it *)
       else
         let changed := negb (n =? o_hp pre) in
